@@ -67,6 +67,15 @@ func GenSpellingGroup(r *rand.Rand, p Profile) *spellingGroup {
 			continue
 		}
 		o := cands[r.Intn(len(cands))]
+		if r.Intn(2) == 0 {
+			// (options with an optional argument are rare among the candidates: prefer one now and then)
+			for _, oc := range cands {
+				if oc.optional {
+					o = oc
+					break
+				}
+			}
+		}
 		var v string
 		ok := false
 		for i := 0; i < 20; i++ {
@@ -78,6 +87,12 @@ func GenSpellingGroup(r *rand.Rand, p Profile) *spellingGroup {
 		}
 		if !ok {
 			continue
+		}
+		// the empty string is a value too (for a string option without choices): it has the attached
+		// and the quoted spellings, and the separate-token ones where the argument is not optional
+		emptyValue := (o.code == "str" || o.code == "Lstr") && len(o.choices) == 0 && (r.Intn(8) == 0 || (o.optional && r.Intn(2) == 0))
+		if emptyValue {
+			v = ""
 		}
 		// surrounding tokens: occurrences of other root options and plain words, no command words
 		var pre, post []string
@@ -136,8 +151,18 @@ func GenSpellingGroup(r *rand.Rand, p Profile) *spellingGroup {
 			forms["--name=\"V\""] = []string{"--" + o.long + "=" + q}
 			forms["--name \"V\""] = []string{"--" + o.long, q}
 		}
+		labels := []string{"-xV", "-x=V", "-x V", "--name=V", "--name V", "-x=\"V\"", "--name=\"V\"", "--name \"V\""}
+		if emptyValue {
+			// (-xV with an empty V is the bare option: not a spelling of the empty value)
+			delete(forms, "-xV")
+			if unquote {
+				forms["-x\"\""] = []string{"-" + s + "\"\""}
+				forms["-x \"\""] = []string{"-" + s, "\"\""}
+				labels = append(labels, "-x\"\"", "-x \"\"")
+			}
+		}
 		sg := &spellingGroup{}
-		for _, label := range []string{"-xV", "-x=V", "-x V", "--name=V", "--name V", "-x=\"V\"", "--name=\"V\"", "--name \"V\""} {
+		for _, label := range labels {
 			f, ok := forms[label]
 			if !ok {
 				continue
